@@ -39,6 +39,13 @@ def crafted_package():
     aim = T("map", "Aim", k=prim("uint16"), e=prim("string"))
     d.append(("Fl", "Fl: !flags\n  base: uint16\n  values:\n    fa: 1\n    fb: 2\n    fab: 3\n    fc: 8"))
     fl = T("enum", "Fl", base="uint16", name="Fl", symbols=[("fa", 1), ("fb", 2), ("fab", 3), ("fc", 8)], is_flags=True)
+    # nullable field types reached through aliases (the field must still be omitted / read as null when absent)
+    d.append(("Label", "Label: string?"))
+    d.append(("MaybeNum", "MaybeNum: [null, int64, float64]"))      # not the inline union of Rk.n: see the C08 finding
+    d.append(("Ral", "Ral: !record\n  fields:\n    id: int32\n    label: Label\n    num: MaybeNum\n    plain: string?"))
+    ral = T("rec", "Ral", name="Ral", fields=[("id", prim("int32")), ("label", T("opt", "Label", e=prim("string"))),
+                                             ("num", T("union", "MaybeNum", has_null=True, cases=[prim("int64"), prim("float64")], tags=[])),
+                                             ("plain", T("opt", "string?", e=prim("string")))])
     d.append(("Rka", "Rka: Rk"))
     rka = T("rec", "Rka", name="Rk", fields=rk.fields)
 
@@ -55,7 +62,8 @@ def crafted_package():
              ("uh", U([vi, aim, prim("string")]), True),                             # array, array (key type is an alias of uint16), string
              ("ui", U([am, aim]), True),
              ("uj", U([fl, prim("int32"), prim("string")]), True),                   # flags are arrays of symbols OR a number
-             ("uk", U([fl, prim("string")], has_null=True), True)]                                             # object, array
+             ("uk", U([fl, prim("string")], has_null=True), True),
+             ("ul", ral, True)]                                             # object, array
     pkg.protocols.append(("Pu", steps))
     return pkg
 
